@@ -23,7 +23,8 @@ def extra(t):
             "cases_with_holding_circuit": t.get("cases_with_holding_circuit", 0),
             "autonomous_cases_confirmed_against_lag_twin": t.get("autonomous_checked_against_lag_twin", 0),
             "backward_retimed_registers_by_reset_and_enable": t.get("hist", {}).get("backward_retimed_registers", {}),
-            "cases_enable_low_directly_after_reset": t.get("cases_enable_low_after_reset", 0)}
+            "cases_enable_low_directly_after_reset": t.get("cases_enable_low_after_reset", 0),
+            "grouped_enable_logic_in_retimed_area": t.get("hist", {}).get("grouped_enable_logic_in_retimed_area", {})}
 
 
 vlib.standard_check({
@@ -42,7 +43,9 @@ vlib.standard_check({
     "nontrivial": lambda t: t.get("cases", 0) - t.get("hist", {}).get("stages", {}).get("N0", 0),
     "extra_cov": extra,
     "rule": "generated datapaths (1-4 data inputs of 1-8 bits, 0-2 stall inputs, 1-2 balance groups with all/some/no reset values, clocks with synchronous reset "
-            "or power-on initialisation only) of seven classes: stateless logic, two groups, feed-forward registers, autonomous counters, movable registers "
+            "or power-on initialisation only) of eight classes: anchored registers and asynchronous-read memory write ports inside the forward-retimed area whose "
+            "enable is a grouped input, logic over grouped inputs (compare with constant, AND, NOT, OR, across two groups) with and without an enclosing stall "
+            "scope, reset values chosen so that the state is a fixed point under the reset inputs, 1-3 pipestages behind; stateless logic, two groups, feed-forward registers, autonomous counters, movable registers "
             "(with stricter enables -> enable splitting / holding circuits, entry chains without a group), negative registers with compensating register, "
             "memory read-port registers (1-2 memories of read latency 1, 1-2 registers marked allowRetimingBackward behind logic on each read port, reset value x enable in "
             "all four combinations, reset values the moved logic does not reproduce, several registers per clock and group); enables / stall inputs that stay low for "
